@@ -427,6 +427,8 @@ def get_attr(I, obj, name):
         return VFunc(name, selfv=obj)
     if isinstance(obj, VSlice):
         return {'start': obj.start, 'stop': obj.stop, 'step': obj.step}[name]
+    if getattr(obj, 'kind', '') == 'ktext':
+        return VFunc(name, selfv=obj)       # bound method of the output stream
     if isinstance(obj, VRec):
         if name in obj.fields:
             return obj.fields[name]
@@ -697,6 +699,25 @@ def del_item(I, obj, idx):
             return
         raise Unsupported('del on the output stream other than stream[n:]')
     if isinstance(obj, VList):
+        if isinstance(idx, VSlice) and isinstance(idx.stop, VNone) and not isinstance(idx.start, VNone) \
+                and not is_concrete(idx.start):
+            # del lst[n:] with a symbolic n: one case per element boundary (a VSeg stands for
+            # an unknown number of elements); a cut inside a VSeg leaves an unknown prefix of it
+            n = as_int(idx.start)
+            I.assume(n >= 0)
+            pos = z3.IntVal(0)
+            for k, x in enumerate(obj.items):
+                if I.decide(n == pos, 'del-from'):
+                    del obj.items[k:]
+                    return
+                size = x.n if getattr(x, 'kind', '') == 'seg' else z3.IntVal(1)
+                if getattr(x, 'kind', '') == 'seg' and I.decide(z3.And(n > pos, n < pos + size), 'del-inside'):
+                    part = type(x)(z3.String(fresh_name('seg_prefix')), n - pos)
+                    I.assume(z3.PrefixOf(part.t, x.t))
+                    obj.items[k:] = [part]
+                    return
+                pos = z3.simplify(pos + size)
+            return          # n >= len: nothing is removed
         if isinstance(idx, VSlice):
             lo = None if isinstance(idx.start, VNone) else concretise(idx.start)
             hi = None if isinstance(idx.stop, VNone) else concretise(idx.stop)
@@ -1452,6 +1473,8 @@ def method(I, recv, name, args, kwargs, callnode=None, unbound=None):
         if name == 'append':
             recv.append_value(args[0])
             return NONE
+        if name == '__len__' and not args:
+            return VInt(recv.length(I))
         raise Unsupported('stream.%s' % name)
     if isinstance(recv, VOpt):
         if I.spec_mode == 0 and I.decide(recv.none, 'none-method'):
